@@ -323,7 +323,7 @@ func (idx *RoaringMetadataIndex) queryCategorical(filter Filter) (*roaring.Bitma
 
 		return result, nil
 
-	case OpGreaterThan, OpGreaterThanOrEqual, OpLessThan, OpLessThanOrEqual, OpRange:
+	case OpGreaterThan, OpGreaterThanOrEqual, OpLessThan, OpLessThanOrEqual, OpRange, OpNotRange:
 		// A numeric comparison on a field that no document carries (yet) is not
 		// an error: no document can satisfy it. It stays an error on a field
 		// that holds categorical values.
@@ -397,6 +397,21 @@ func (idx *RoaringMetadataIndex) queryNumeric(bsiIndex *bsi.BSI, filter Filter) 
 		}
 		result := compareNumeric(bsiIndex, bsi.GE, minVal)
 		result.And(compareNumeric(bsiIndex, bsi.LE, maxVal))
+		return result, nil
+
+	case OpNotRange: // Complement of [value, value2] among the documents that have the field
+		minVal, err := toInt64(filter.Value)
+		if err != nil {
+			return nil, err
+		}
+		maxVal, err := toInt64(filter.Value2)
+		if err != nil {
+			return nil, err
+		}
+		inRange := compareNumeric(bsiIndex, bsi.GE, minVal)
+		inRange.And(compareNumeric(bsiIndex, bsi.LE, maxVal))
+		result := bsiIndex.GetExistenceBitmap().Clone()
+		result.AndNot(inRange)
 		return result, nil
 
 	default:
@@ -474,7 +489,8 @@ const (
 	OpNotIn Operator = "not_in" // Not in a set of values
 
 	// Range operators
-	OpRange Operator = "range" // Within a range [Value, Value2]
+	OpRange    Operator = "range"     // Within a range [Value, Value2]
+	OpNotRange Operator = "not_range" // Has the field with a value outside [Value, Value2] (produced by Not(Range(...)))
 
 	// Existence operators
 	OpExists    Operator = "exists"     // Field exists (has any value)
@@ -585,6 +601,10 @@ func Not(filter Filter) Filter {
 		filter.Operator = OpNotExists
 	case OpNotExists:
 		filter.Operator = OpExists
+	case OpRange:
+		filter.Operator = OpNotRange
+	case OpNotRange:
+		filter.Operator = OpRange
 	}
 	return filter
 }
